@@ -24,17 +24,7 @@ META = {
 MAXLEN = 64
 
 
-class CountingIO(BytesIO):
-    def __init__(self, data, budget):
-        super().__init__(data)
-        self.reads = 0
-        self.budget = budget
-
-    def read(self, *a):
-        self.reads += 1
-        if self.reads > self.budget:
-            raise BudgetExceeded("read budget")
-        return super().read(*a)
+CountingIO = TS.CountingIO
 
 
 def shards(tier, seed):
